@@ -529,10 +529,10 @@ def finish(mod, rep, args, t0):
             tail = "" if v.get("confirmed_on_real_code") else " no-failing-input-found"
             print("VIOLATION property=%s replay=%s obligation=%s%s" % (rep.prop, rp, v["obligation"], tail))
         code = 1
-    elif rep.undecided:
+    if rep.undecided:
         for u in rep.undecided[:10]:
             print("UNDECIDED property=%s %s" % (rep.prop, json.dumps(u, default=repr)[:600]))
-        code = 2
+        code = code or 2
     print("%s: %d/%d obligations discharged (%d level-B), %d paths, %d cross-check runs, %.1fs, exit %d" % (
         rep.prop, rep.discharged, rep.obligations, rep.bounded_obligations, rep.paths, rep.cross_checked, wall, code))
     return code
